@@ -11,7 +11,7 @@
 use std::{
     num::{NonZeroU64, NonZeroUsize},
     panic::{catch_unwind, AssertUnwindSafe},
-    sync::atomic::{AtomicU64, AtomicUsize, Ordering},
+    sync::atomic::{AtomicPtr, AtomicU64, Ordering},
     time::Duration,
 };
 
@@ -35,20 +35,20 @@ use crate::{
 // ---------------------------------------------------------------------------
 
 static VTSC_FREQUENCY: AtomicU64 = AtomicU64::new(0);
-static VTSC_READ: AtomicUsize = AtomicUsize::new(0);
+static VTSC_READ: AtomicPtr<()> = AtomicPtr::new(std::ptr::null_mut());
 
 /// Installs a virtual timestamp-counter source. `read(is_end)` is called for
 /// every `TscTimestamp::start()` (`false`) and `TscTimestamp::end()` (`true`).
 pub fn install_virtual_tsc(frequency: u64, read: fn(bool) -> u64) {
     assert!(frequency != 0);
-    VTSC_READ.store(read as usize, Ordering::SeqCst);
+    VTSC_READ.store(read as *mut (), Ordering::SeqCst);
     VTSC_FREQUENCY.store(frequency, Ordering::SeqCst);
 }
 
 /// Removes the virtual timestamp-counter source.
 pub fn remove_virtual_tsc() {
     VTSC_FREQUENCY.store(0, Ordering::SeqCst);
-    VTSC_READ.store(0, Ordering::SeqCst);
+    VTSC_READ.store(std::ptr::null_mut(), Ordering::SeqCst);
 }
 
 #[inline]
@@ -64,11 +64,12 @@ pub(crate) fn virtual_tsc_installed() -> bool {
 #[inline]
 pub(crate) fn virtual_tsc_read(is_end: bool) -> Option<u64> {
     let read = VTSC_READ.load(Ordering::Relaxed);
-    if read == 0 {
+    if read.is_null() {
         return None;
     }
     // SAFETY: Only ever stored from a `fn(bool) -> u64`.
-    let read: fn(bool) -> u64 = unsafe { std::mem::transmute(read) };
+    let read: fn(bool) -> u64 =
+        unsafe { std::mem::transmute::<*mut (), fn(bool) -> u64>(read) };
     Some(read(is_end))
 }
 
@@ -76,23 +77,23 @@ pub(crate) fn virtual_tsc_read(is_end: bool) -> Option<u64> {
 // Failpoints
 // ---------------------------------------------------------------------------
 
-static POINT: AtomicUsize = AtomicUsize::new(0);
+static POINT: AtomicPtr<()> = AtomicPtr::new(std::ptr::null_mut());
 
 /// Installs the failpoint callback (called with the failpoint's id).
 pub fn install_point(f: fn(u32)) {
-    POINT.store(f as usize, Ordering::SeqCst);
+    POINT.store(f as *mut (), Ordering::SeqCst);
 }
 
 pub fn remove_point() {
-    POINT.store(0, Ordering::SeqCst);
+    POINT.store(std::ptr::null_mut(), Ordering::SeqCst);
 }
 
 #[inline]
 pub(crate) fn point(id: u32) {
     let f = POINT.load(Ordering::Relaxed);
-    if f != 0 {
+    if !f.is_null() {
         // SAFETY: Only ever stored from a `fn(u32)`.
-        let f: fn(u32) = unsafe { std::mem::transmute(f) };
+        let f: fn(u32) = unsafe { std::mem::transmute::<*mut (), fn(u32)>(f) };
         f(id);
     }
 }
